@@ -22,6 +22,7 @@ type Profile struct {
 	CaptureOnly                                                                        int  // percent of backtrack points (choices, lookaheads, optional/repeated elements) whose operand is built from terminals and captures only
 	RecSplice                                                                          int  // percent of grammars that get a nested-group idiom (recursive alternative sharing its first character with a sibling)
 	WUntil                                                                             int  // weight of the "(!T .)* T" idiom with a terminator T that leaves tokens
+	ItemSplice                                                                         int  // percent of grammars whose first rule tries the bracketed-item idiom first (single-use rules right behind a dispatch character)
 	ListSplice                                                                         int  // percent of grammars whose first rule becomes a right-recursive list whose items end in the grammar's last action
 	MemoSplice                                                                         int  // percent of grammars with a re-enter-after-overwrite choice (memo splice)
 	RefHeavy                                                                           bool // rule bodies are sequences of references and captures
@@ -32,12 +33,12 @@ type Profile struct {
 }
 
 var Profiles = map[string]Profile{
-	"plain":      {Name: "plain", StringSplice: 15, KeywordSplice: 15, ExtremeSplice: 15, WUntil: 3, ListSplice: 20, MinRules: 2, MaxRules: 6, Depth: 3, AltMin: 2, AltMax: 4, SeqMax: 4, WTerm: 22, WSeq: 20, WAlt: 18, WOpt: 6, WStar: 6, WPlus: 6, WAnd: 4, WNot: 4, WCap: 6, WRef: 8, WAct: 6, WPred: 2, WState: 1, Hostile: 8, Newline: 2},
-	"switchy":    {Name: "switchy", StringSplice: 10, KeywordSplice: 25, ExtremeSplice: 12, Dispatch: 60, RecSplice: 40, MinRules: 2, MaxRules: 6, Depth: 3, AltMin: 3, AltMax: 6, SeqMax: 3, WTerm: 22, WSeq: 16, WAlt: 30, WOpt: 6, WStar: 5, WPlus: 4, WAnd: 5, WNot: 5, WCap: 4, WRef: 10, WAct: 4, WPred: 1, WState: 0, Hostile: 6, Newline: 1},
-	"backtracky": {Name: "backtracky", StringSplice: 10, KeywordSplice: 15, ExtremeSplice: 10, WUntil: 8, ListSplice: 20, MemoSplice: 50, CaptureOnly: 35, MinRules: 2, MaxRules: 5, Depth: 3, AltMin: 2, AltMax: 4, SeqMax: 4, WTerm: 18, WSeq: 22, WAlt: 22, WOpt: 5, WStar: 5, WPlus: 4, WAnd: 6, WNot: 4, WCap: 10, WRef: 12, WAct: 10, WPred: 1, WState: 0, Hostile: 3, Newline: 1, SharedPrefix: 60},
-	"deep":       {Name: "deep", StringSplice: 10, KeywordSplice: 10, ExtremeSplice: 10, WUntil: 4, CaptureOnly: 10, MinRules: 3, MaxRules: 7, Depth: 4, AltMin: 2, AltMax: 3, SeqMax: 3, WTerm: 14, WSeq: 22, WAlt: 12, WOpt: 6, WStar: 6, WPlus: 6, WAnd: 2, WNot: 2, WCap: 14, WRef: 18, WAct: 8, WPred: 1, WState: 0, Hostile: 10, Newline: 2},
+	"plain":      {ItemSplice: 10, Name: "plain", StringSplice: 15, KeywordSplice: 15, ExtremeSplice: 15, WUntil: 3, ListSplice: 20, MinRules: 2, MaxRules: 6, Depth: 3, AltMin: 2, AltMax: 4, SeqMax: 4, WTerm: 22, WSeq: 20, WAlt: 18, WOpt: 6, WStar: 6, WPlus: 6, WAnd: 4, WNot: 4, WCap: 6, WRef: 8, WAct: 6, WPred: 2, WState: 1, Hostile: 8, Newline: 2},
+	"switchy":    {ItemSplice: 25, Name: "switchy", StringSplice: 10, KeywordSplice: 25, ExtremeSplice: 12, Dispatch: 60, RecSplice: 40, MinRules: 2, MaxRules: 6, Depth: 3, AltMin: 3, AltMax: 6, SeqMax: 3, WTerm: 22, WSeq: 16, WAlt: 30, WOpt: 6, WStar: 5, WPlus: 4, WAnd: 5, WNot: 5, WCap: 4, WRef: 10, WAct: 4, WPred: 1, WState: 0, Hostile: 6, Newline: 1},
+	"backtracky": {ItemSplice: 6, Name: "backtracky", StringSplice: 10, KeywordSplice: 15, ExtremeSplice: 10, WUntil: 8, ListSplice: 20, MemoSplice: 50, CaptureOnly: 35, MinRules: 2, MaxRules: 5, Depth: 3, AltMin: 2, AltMax: 4, SeqMax: 4, WTerm: 18, WSeq: 22, WAlt: 22, WOpt: 5, WStar: 5, WPlus: 4, WAnd: 6, WNot: 4, WCap: 10, WRef: 12, WAct: 10, WPred: 1, WState: 0, Hostile: 3, Newline: 1, SharedPrefix: 60},
+	"deep":       {ItemSplice: 10, Name: "deep", StringSplice: 10, KeywordSplice: 10, ExtremeSplice: 10, WUntil: 4, CaptureOnly: 10, MinRules: 3, MaxRules: 7, Depth: 4, AltMin: 2, AltMax: 3, SeqMax: 3, WTerm: 14, WSeq: 22, WAlt: 12, WOpt: 6, WStar: 6, WPlus: 6, WAnd: 2, WNot: 2, WCap: 14, WRef: 18, WAct: 8, WPred: 1, WState: 0, Hostile: 10, Newline: 2},
 	"erry":       {Name: "erry", StringSplice: 10, KeywordSplice: 10, ExtremeSplice: 8, WUntil: 4, RefHeavy: true, MinRules: 4, MaxRules: 7, Depth: 3, AltMin: 2, AltMax: 3, SeqMax: 5, WTerm: 14, WSeq: 30, WAlt: 10, WOpt: 6, WStar: 5, WPlus: 6, WAnd: 2, WNot: 2, WCap: 14, WRef: 30, WAct: 2, WPred: 1, WState: 0, Hostile: 15, Newline: 20},
-	"actiony":    {Name: "actiony", StringSplice: 20, KeywordSplice: 10, ExtremeSplice: 12, WUntil: 8, ListSplice: 40, CaptureOnly: 10, MinRules: 2, MaxRules: 5, Depth: 3, AltMin: 2, AltMax: 3, SeqMax: 5, WTerm: 14, WSeq: 26, WAlt: 14, WOpt: 8, WStar: 8, WPlus: 8, WAnd: 5, WNot: 3, WCap: 16, WRef: 12, WAct: 24, WPred: 1, WState: 0, Hostile: 4, Newline: 2, SharedPrefix: 40},
+	"actiony":    {ItemSplice: 8, Name: "actiony", StringSplice: 20, KeywordSplice: 10, ExtremeSplice: 12, WUntil: 8, ListSplice: 40, CaptureOnly: 10, MinRules: 2, MaxRules: 5, Depth: 3, AltMin: 2, AltMax: 3, SeqMax: 5, WTerm: 14, WSeq: 26, WAlt: 14, WOpt: 8, WStar: 8, WPlus: 8, WAnd: 5, WNot: 3, WCap: 16, WRef: 12, WAct: 24, WPred: 1, WState: 0, Hostile: 4, Newline: 2, SharedPrefix: 40},
 	"listy":      {Name: "listy", StringSplice: 20, KeywordSplice: 10, ExtremeSplice: 12, WUntil: 8, ListSplice: 100, MemoSplice: 40, CaptureOnly: 10, MinRules: 2, MaxRules: 5, Depth: 3, AltMin: 2, AltMax: 3, SeqMax: 5, WTerm: 14, WSeq: 26, WAlt: 14, WOpt: 8, WStar: 8, WPlus: 8, WAnd: 5, WNot: 3, WCap: 16, WRef: 12, WAct: 24, WPred: 1, WState: 0, Hostile: 4, Newline: 2, SharedPrefix: 40},
 	"liney":      {Name: "liney", StringSplice: 20, KeywordSplice: 10, ExtremeSplice: 10, WUntil: 6, MinRules: 2, MaxRules: 5, Depth: 3, AltMin: 2, AltMax: 4, SeqMax: 5, WTerm: 26, WSeq: 24, WAlt: 14, WOpt: 6, WStar: 6, WPlus: 6, WAnd: 3, WNot: 3, WCap: 6, WRef: 8, WAct: 3, WPred: 1, WState: 0, Hostile: 25, Newline: 25},
 }
@@ -89,6 +90,12 @@ func (s *genState) term() *Expr {
 		e := &Expr{K: KLit}
 		for i := 0; i < n; i++ {
 			e.Runes = append(e.Runes, s.rune1("lr"))
+		}
+		if n >= 2 && s.pct(6+s.p.Hostile, "pair") {
+			// adjacent characters that mean something to whatever carries the literal into the
+			// generated file (a comment, a format, a template, a quoted string), and literals
+			// whose last character takes more than one byte
+			e.Runes = []rune(rapid.SampledFrom([]string{"*/", "/*", "//", "%d", "%%", "{{", "}}", "\\n", "`a", "a\"", "caf\u00e9", "a\u4e16", "\u00e9\u00e9", "x\U0001F600"}).Draw(t, "pairv"))
 		}
 		if s.pct(12, "ci") {
 			e.CI = true
@@ -502,7 +509,16 @@ func (s *genState) dispatch(i, depth int, must, guarded bool) *Expr {
 				lead.Kids = append(lead.Kids, Seq(&Expr{K: KLit, Runes: []rune{perm[len(perm)-2]}}, &Expr{K: KLit, Runes: []rune{'z'}}))
 			}
 		case k == 0:
-			alt.Kids = append(alt.Kids, Un(KAnd, small("pa")))
+			switch rapid.IntRange(0, 3).Draw(t, "panull") {
+			case 0:
+				// the operand can match without consuming: its first characters say nothing
+				// about what may follow the lookahead
+				alt.Kids = append(alt.Kids, Un(KAnd, Seq(Un(KStar, small("pa")), Un(KNot, small("pb")))))
+			case 1:
+				alt.Kids = append(alt.Kids, Un(KAnd, Un(KOpt, small("pa"))))
+			default:
+				alt.Kids = append(alt.Kids, Un(KAnd, small("pa")))
+			}
 		case k == 1:
 			alt.Kids = append(alt.Kids, Un(KNot, small("pn")))
 		case k == 2:
@@ -687,6 +703,57 @@ func (s *genState) memoSplice(g *Grammar) {
 		s.rules = g.Rules
 		return
 	}
+	switch rapid.IntRange(0, 7).Draw(t, "msvar") {
+	case 0:
+		// a rule remembered outside a lookahead, found again inside one by the rule that
+		// contains it, which is then read for real at the same offset:
+		//   R0 <- B t1 / &A A t2 / !A . / A t3 / (old) ;  A <- B 'c'? ;  B <- x
+		x := rapid.SampledFrom(baseAlpha).Draw(t, "mlx")
+		lit := func(r rune) *Expr { return &Expr{K: KLit, Runes: []rune{r}} }
+		base := len(g.Rules)
+		b, a := base, base+1
+		var bbody *Expr = lit(x)
+		if rapid.Bool().Draw(t, "mlcap") {
+			bbody = Seq(Un(KCap, lit(x)), &Expr{K: KAct})
+		}
+		abody := Seq(Ref(b), Un(KOpt, lit('c')))
+		if rapid.Bool().Draw(t, "mlact") {
+			abody = Seq(Ref(b), &Expr{K: KAct}, Un(KStar, lit('c')))
+		}
+		g.Rules = append(g.Rules, &Rule{Name: fmt.Sprintf("R%d", b), Body: bbody}, &Rule{Name: fmt.Sprintf("R%d", a), Body: abody})
+		la := KAnd
+		kids := []*Expr{Seq(Ref(b), lit('1')), Seq(Un(la, Ref(a)), Ref(a), lit('2')), Seq(Un(KNot, Ref(a)), &Expr{K: KDot}), Seq(Ref(a), lit('3')), g.Rules[0].Body}
+		if rapid.Bool().Draw(t, "mlnot") {
+			// the lookahead is the negative one, twice:  !!A A t2
+			kids[1] = Seq(Un(KNot, Un(KNot, Ref(a))), Ref(a), lit('2'))
+		}
+		g.Rules[0].Body = &Expr{K: KAlt, Kids: kids}
+		s.n = len(g.Rules)
+		s.ruleMust = append(s.ruleMust, true, true)
+		s.known = append(s.known, true, true)
+		s.rules = g.Rules
+		return
+	case 1:
+		// two captures in one sequence with nothing that runs code between them; the second
+		// part fails, and the next alternative begins with an action:
+		//   R0 <- F t1 / {action} x+ '=' t2 / (old) ;  F <- <x+> '=' <x+>
+		x := rapid.SampledFrom(baseAlpha).Draw(t, "m2x")
+		lit := func(r rune) *Expr { return &Expr{K: KLit, Runes: []rune{r}} }
+		f := len(g.Rules)
+		fbody := Seq(Un(KCap, Un(KPlus, lit(x))), lit('='), Un(KCap, Un(KPlus, lit(x))))
+		first := Seq(Ref(f), lit('1'))
+		if rapid.Bool().Draw(t, "m2direct") {
+			first = Seq(Un(KCap, Un(KPlus, lit(x))), lit('='), Un(KCap, Un(KPlus, lit(x))), lit('1'))
+			fbody = Seq(Un(KCap, lit(x)), &Expr{K: KAct})
+		}
+		g.Rules = append(g.Rules, &Rule{Name: fmt.Sprintf("R%d", f), Body: fbody})
+		g.Rules[0].Body = &Expr{K: KAlt, Kids: []*Expr{first, Seq(&Expr{K: KAct}, Un(KPlus, lit(x)), lit('='), Un(KStar, lit(x)), lit('2')), Seq(Ref(f), lit('3')), g.Rules[0].Body}}
+		s.n = len(g.Rules)
+		s.ruleMust = append(s.ruleMust, true)
+		s.known = append(s.known, true)
+		s.rules = g.Rules
+		return
+	}
 	x := rapid.SampledFrom(baseAlpha).Draw(t, "msx")
 	lx := func() *Expr { return &Expr{K: KLit, Runes: []rune{x}} }
 	base := len(g.Rules)
@@ -780,6 +847,45 @@ func (s *genState) listSplice(g *Grammar) {
 	s.n = len(g.Rules)
 	s.ruleMust = append(s.ruleMust, true)
 	s.known = append(s.known, true)
+	s.rules = g.Rules
+}
+
+// itemSplice adds the bracketed-item idiom  R0 <- '(' G / '[' I / W / (old)  where G, I and W are
+// new rules named exactly once (so -inline expands them in place, right behind the character
+// a -switch arm has already consumed) whose bodies begin with a capture, an action or a
+// plain terminal.
+func (s *genState) itemSplice(g *Grammar) {
+	t := s.t
+	lit := func(r rune) *Expr { return &Expr{K: KLit, Runes: []rune{r}} }
+	x := rapid.SampledFrom(baseAlpha).Draw(t, "isx")
+	base := len(g.Rules)
+	mk := func(label string, cls rune) *Expr {
+		var inner *Expr = Un(KPlus, lit(x))
+		switch rapid.IntRange(0, 3).Draw(t, label) {
+		case 0:
+			inner = Un(KCap, inner)
+		case 1:
+			inner = Seq(&Expr{K: KAct}, inner)
+		case 2:
+			inner = Seq(Un(KCap, inner), &Expr{K: KAct})
+		}
+		if cls != 0 {
+			return Seq(inner, lit(cls))
+		}
+		return inner
+	}
+	g.Rules = append(g.Rules,
+		&Rule{Name: fmt.Sprintf("R%d", base), Body: mk("isg", ')')},
+		&Rule{Name: fmt.Sprintf("R%d", base+1), Body: mk("isi", ']')},
+		&Rule{Name: fmt.Sprintf("R%d", base+2), Body: &Expr{K: KClass, Items: []Item{{'g', 'm'}}}})
+	kids := []*Expr{Seq(lit('('), Ref(base)), Seq(lit('['), Ref(base+1)), Seq(Un(KPlus, Ref(base+2)))}
+	if rapid.Bool().Draw(t, "isswap") {
+		kids[0], kids[1] = kids[1], kids[0]
+	}
+	g.Rules[0].Body = &Expr{K: KAlt, Kids: append(kids, g.Rules[0].Body)}
+	s.n = len(g.Rules)
+	s.ruleMust = append(s.ruleMust, true, true, true)
+	s.known = append(s.known, true, true, true)
 	s.rules = g.Rules
 }
 
@@ -960,7 +1066,12 @@ func (s *genState) extremeSplice(g *Grammar) {
 	var body *Expr
 	var extra []*Rule
 	if never {
-		switch rapid.IntRange(0, 5).Draw(t, "xn") {
+		switch rapid.IntRange(0, 7).Draw(t, "xn") {
+		case 6:
+			// a negative lookahead over single characters and an empty alternative
+			body = Un(KNot, &Expr{K: KAlt, Kids: []*Expr{lit(c), lit(';')}, EmptyLast: true})
+		case 7:
+			body = Un(KNot, &Expr{K: KAlt, Kids: []*Expr{{K: KClass, Items: []Item{{'a', 'b'}}}, lit(',')}, EmptyLast: true})
 		case 0:
 			body = Un(KNot, &Expr{K: KEmpty})
 		case 1:
@@ -1058,6 +1169,9 @@ func WellFormedGrammar(t *rapid.T, p Profile) *Grammar {
 	}
 	if s.pct(p.ListSplice, "listsplice") {
 		s.listSplice(g)
+	}
+	if s.pct(p.ItemSplice, "itemsplice") {
+		s.itemSplice(g)
 	}
 	if s.pct(p.ExtremeSplice, "extremesplice") {
 		s.extremeSplice(g)
